@@ -6,6 +6,17 @@ def check(run):
     q = run.quick()
     vals = [1, 2] if q else [1, 2, 3]
     mc = model_check(run, "atomics", "Register", dict(Vals=tla_set(vals)), invariants=["TypeOK"], edges=True, label="register graph")
+    # the wrapper's CompareAndSwap over atomic.Value's boxes: the repaired retry loop answers false only if the value differed at some
+    # moment of the call, and always returns; the pinned single attempt is shown to fail spuriously
+    cas = dict(Threads=tla_set([1, 2, 3] if q else [1, 2, 3, 4]), Vals=tla_set([5, 6]), Retry="TRUE", MaxBox=5 if q else 6)
+    model_check(run, "atomics", "AtomicCAS", cas, invariants=["FalseOnlyIfDiffered", "TrueOnlyIfEqual"], label="CompareAndSwap over boxes, retry loop")
+    model_check(run, "atomics", "AtomicCAS", cas, properties=["EveryCallReturns"], spec="LiveSpec", label="CompareAndSwap: every call returns")
+    spur = model_check(run, "atomics", "AtomicCAS", dict(cas, Retry="FALSE"), invariants=["FalseOnlyIfDiffered"], expect_violation=True,
+                       label="CompareAndSwap, single attempt (pinned)")
+    if not spur.get("violated"):
+        raise Inconclusive("AtomicCAS.tla with Retry=FALSE should violate FalseOnlyIfDiffered")
+    run.notes.append("AtomicCAS.tla with Retry=FALSE (one inner compare-and-swap, as pinned): a Store of an equal value between the value "
+                     "comparison and the pointer swap makes CompareAndSwap answer false although the value never differed - violated as expected")
     model_check(run, "atomics", "Pool", dict(Threads=tla_set([1, 2, 3]), MaxFresh=3, WritesNew="FALSE"),
                 invariants=["NoDoubleHandOut", "Disjoint", "NoPlainConflict"], label="pool, repaired Get")
     bad = model_check(run, "atomics", "Pool", dict(Threads=tla_set([1, 2]), MaxFresh=2, WritesNew="TRUE"), invariants=["NoPlainConflict"],
